@@ -133,6 +133,13 @@ Proof.
 Qed.
 Print Assumptions c17_set_id_derivation.
 
+(* The reference reads a set as the LATEST write to its identifier. *)
+Theorem c17_reference_latest_write_wins : forall l s v,
+  latest l s = Some v <->
+  exists pre post, l = pre ++ (s, v) :: post /\ ~ In s (map fst pre).
+Proof. exact latest_spec. Qed.
+Print Assumptions c17_reference_latest_write_wins.
+
 (* REFINEMENT to the reference "map of sets keyed by the peers' KEYS": on every
    history the fixed variant violates no clause of the property ... *)
 Theorem c17_fixed_model_satisfies_property : forall idk ops,
